@@ -106,7 +106,7 @@ def lin_of(e, consts=None, expand=None, atom_of=None, depth=0):
         a = atom_of(e)
         if a is not None:
             return a if isinstance(a, Lin) else Lin.atom(a)
-    if isinstance(e, ast.Name) and expand is not None:
+    if isinstance(e, (ast.Name, ast.Attribute)) and expand is not None:
         x = expand(e)
         if x is not e:
             return lin_of(x, consts, expand, atom_of, depth + 1)
